@@ -193,11 +193,7 @@ theorem join_output_sorted (inputs : List (String × PInput)) (on : List String)
         have := hemp (k, .table d) hkv
         simp at this
     · split at h
-      · split at h
-        · exact ⟨_, by simpa using h⟩
-        · simp at h
-        · simp at h
-        · simp at h
+      · exact ⟨_, by simpa using h⟩
       · simp at h
       · simp at h
       · simp at h
